@@ -113,6 +113,11 @@ class Check:
             if ev["tid"] not in verdicts:
                 continue
             fails = verdicts[ev["tid"]]
+            mach = [f for f in fails if str(f["clause"]).startswith("MACHINERY")]
+            if mach:
+                self.machinery_errors.append(
+                    f"event {ev.get('what')}: {mach[0]['clause']} {mach[0]['detail']}")
+                continue
             if not fails:
                 self.traces_ok += 1
             else:
